@@ -117,6 +117,13 @@ def handle : Protocol.Handler := fun j => do
       ("results", listJ (s.threads.map fun th => match th.result with | some r => encRes r | none => Json.null)),
       ("done", Json.bool (allDone s)),
       ("steps", natJ sched.length)]
+  | "static" =>
+    -- the schedule-independent hypothesis of `all_schedules_safe`, evaluated for the requested types
+    let G ← decGraph (← field j "graph")
+    let fuel ← fieldNat j "fuel"
+    let tys ← (← fieldArr j "tys").mapM asNat
+    return listJ (tys.map fun ty => Json.mkObj [("ty", natJ ty), ("typed", Json.bool (typed G (compile G fuel ty) ty)),
+                                               ("length", natJ (compile G fuel ty).length)])
   | "compile" =>
     let G ← decGraph (← field j "graph")
     return listJ ((compile G (← fieldNat j "fuel") (← fieldNat j "ty")).map encInstr)
